@@ -34,7 +34,6 @@ pub mod ledger_version;
 mod c17;
 #[cfg(kani)]
 pub mod sgen;
-#[cfg(kani)]
 pub mod hgen;
 #[cfg(kani)]
 mod warmup {
